@@ -11,16 +11,24 @@ use futures::channel::mpsc;
 use futures::SinkExt;
 use parking_lot::Mutex;
 
+use std::sync::atomic::{AtomicU64, Ordering};
 use std::sync::Arc;
 
 pub(crate) struct Peer {
     pub(crate) send_queue: ZmqFramedWrite,
+    /// Which registration of this identity the entry belongs to (see `round_robin`).
+    pub(crate) registration: u64,
 }
 
 pub(crate) struct GenericSocketBackend {
     pub(crate) peers: scc::HashMap<PeerIdentity, Peer>,
     fair_queue_inner: Option<Arc<Mutex<QueueInner<ZmqFramedRead, PeerIdentity>>>>,
-    pub(crate) round_robin: SegQueue<PeerIdentity>,
+    /// One turn per registered connection. A turn carries the registration it
+    /// was issued for, so that a turn left behind by an earlier connection under
+    /// the same identity is recognised and dropped instead of giving the new
+    /// connection two turns per round.
+    pub(crate) round_robin: SegQueue<(PeerIdentity, u64)>,
+    registrations: AtomicU64,
     socket_type: SocketType,
     socket_options: SocketOptions,
     pub(crate) socket_monitor: Mutex<Option<mpsc::Sender<SocketEvent>>>,
@@ -36,6 +44,7 @@ impl GenericSocketBackend {
             peers: scc::HashMap::new(),
             fair_queue_inner,
             round_robin: SegQueue::new(),
+            registrations: AtomicU64::new(0),
             socket_type,
             socket_options: options,
             socket_monitor: Mutex::new(None),
@@ -49,7 +58,7 @@ impl GenericSocketBackend {
         // items from queue. So in such case we'll just pop item and skip it if
         // we don't have a matching peer in peers map
         loop {
-            let next_peer_id = match self.round_robin.pop() {
+            let (next_peer_id, registration) = match self.round_robin.pop() {
                 Some(peer) => peer,
                 None => match message {
                     Message::Greeting(_) => panic!("Sending greeting is not supported"),
@@ -65,12 +74,17 @@ impl GenericSocketBackend {
             #[cfg(feature = "verif-hooks")]
             crate::verif_hooks::yield_point("backend.send_round_robin.after_pop").await;
             let send_result = match self.peers.get_async(&next_peer_id).await {
-                Some(mut peer) => peer.send_queue.send(message).await,
-                None => continue,
+                Some(mut peer) if peer.registration == registration => {
+                    peer.send_queue.send(message).await
+                }
+                // The peer is gone, or this turn belongs to an earlier
+                // connection under the same identity.
+                _ => continue,
             };
             return match send_result {
                 Ok(()) => {
-                    self.round_robin.push(next_peer_id.clone());
+                    self.round_robin
+                        .push((next_peer_id.clone(), registration));
                     Ok(next_peer_id)
                 }
                 Err(e) => {
@@ -104,12 +118,19 @@ impl SocketBackend for GenericSocketBackend {
 impl MultiPeerBackend for GenericSocketBackend {
     async fn peer_connected(self: Arc<Self>, peer_id: &PeerIdentity, io: FramedIo) {
         let (recv_queue, send_queue) = io.into_parts();
+        let registration = self.registrations.fetch_add(1, Ordering::Relaxed);
         self.peers
-            .upsert_async(peer_id.clone(), Peer { send_queue })
+            .upsert_async(
+                peer_id.clone(),
+                Peer {
+                    send_queue,
+                    registration,
+                },
+            )
             .await;
         #[cfg(feature = "verif-hooks")]
         crate::verif_hooks::yield_point("backend.peer_connected.after_upsert").await;
-        self.round_robin.push(peer_id.clone());
+        self.round_robin.push((peer_id.clone(), registration));
         #[cfg(feature = "verif-hooks")]
         crate::verif_hooks::yield_point("backend.peer_connected.after_rr_push").await;
         match &self.fair_queue_inner {
